@@ -852,8 +852,8 @@ def gen_cases(rng, tier):
     tbl = T()
     for c in regression_cases(rng):
         yield c
-    per_rt = 10 if tier == "quick" else 40
-    per_parse = 5 if tier == "quick" else 20
+    per_rt = 10 if tier == "quick" else 80
+    per_parse = 5 if tier == "quick" else 40
     avs = [cd["id"] for cd in tbl if cd["kind"] == "attrValue"]
     dflt = [cd["id"] for cd in tbl if cd["defaults"]]
     holders = {}  # class id -> classes that can hold it (to nest interesting classes)
